@@ -15,7 +15,7 @@ from harness import design_util as du
 from harness.core import Machinery
 from harness.gnpy_util import EX, TD, NONE
 
-CLAUSES = ['ChainsOneInOneOut', 'UniqueNames', 'RoadmReachabilityUnchanged', 'NothingLostNothingInvented',
+CLAUSES = ['UserAttenuatorKept', 'ChainsOneInOneOut', 'UniqueNames', 'RoadmReachabilityUnchanged', 'NothingLostNothingInvented',
            'EveryJunctionAmplified', 'AmplifiersOnlyAtJunctions', 'SplitIsEqualAndConservative', 'EveryAmpConfigured',
            'EveryFiberHasConnectors', 'DefaultConnectorsApplied', 'SpanAtLeastPadding']
 
@@ -55,8 +55,9 @@ def features(case):
     user_amp = any(e['t'] == 'Edfa' for e in case['g'])
     raman_after_roadm = any(e['t'] == 'Roadm' and any(case['g'][j - 1]['t'] == 'RamanFiber' for j in e['s'])
                             for e in case['g'])
+    per_freq = any(e.get('ct') for e in case['g'])
     return (f"raman={int('RamanFiber' in types)}|raman_after_roadm={int(raman_after_roadm)}|"
-            f"fused={int('Fused' in types)}|useramp={int(user_amp)}")
+            f"fused={int('Fused' in types)}|useramp={int(user_amp)}" + ('|perfreq=1' if per_freq else ''))
 
 
 def case_name(case):
@@ -77,6 +78,10 @@ def case_name(case):
                     tag += str(x['l'] / 1000).rstrip('0').rstrip('.')
                     if x.get('ai', 0) not in (0, NONE):
                         tag += f"+att{x['ai'] // 1000000}"
+                    if x.get('ct'):
+                        tag += '+perfreq'
+                if x['t'] == 'Fused':
+                    pass
                 if x['t'] == 'Edfa':
                     u = x['u'][0]
                     tag += 'full' if u['gain'] != NONE else 'partial' if u['variety'] else 'none'
@@ -373,7 +378,22 @@ def _mut_preamp_skipped_after_split():
     nw.add_roadm_preamp = add_roadm_preamp
 
 
-MUTANTS = {'split_same_name': _mut_split_same_name, 'inline_stale_list': _mut_inline_stale_list,
+def _mut_asdict_drops_frequency():
+    """FiberParams.asdict() returns a per-frequency loss coefficient without its frequency reference (split spans are
+    rebuilt from it)"""
+    from gnpy.core.parameters import FiberParams
+    orig = FiberParams.asdict
+
+    def asdict(self):
+        d = orig(self)
+        if isinstance(d.get('loss_coef'), dict):
+            import numpy as np
+            d['loss_coef'] = np.asarray(d['loss_coef']['value'])
+        return d
+    FiberParams.asdict = asdict
+
+
+MUTANTS = {'asdict_drops_frequency': _mut_asdict_drops_frequency, 'split_same_name': _mut_split_same_name, 'inline_stale_list': _mut_inline_stale_list,
            'padding_skips_fused_chain': _mut_padding_skips_fused_chain,
            'split_integer_length': _mut_split_integer_length, 'gain_mode_no_voa': _mut_gain_mode_no_voa,
            'preamp_skipped_after_split': _mut_preamp_skipped_after_split}
